@@ -118,7 +118,7 @@ GroupsOK(d) == \* groups are duplicate-free and pairwise disjoint (the construct
 \* clauses over a result o (sequence of [it, cid]) for mode m, declared groups d, call ids issued in (lo, hi]
 PositionsRight(m, o) == Len(o) = Len(m) /\ \A p \in 1..Len(m) : o[p].it = m[p]
 FreshCalls(m, o, lo, hi) ==
-  \A p \in 1..Len(m) : m[p] \in Loaders \cup {"ctx.k"} => (lo < o[p].cid /\ o[p].cid <= hi)
+  \A p \in 1..Len(m) : m[p] \in Loaders \cup {"ctx.k", "ctx.k.s"} => (lo < o[p].cid /\ o[p].cid <= hi)
 JointOnce(m, d, o) ==
   \A n \in 1..Len(d) :
      (\A j \in 1..Len(d[n]) : Count(m, d[n][j]) = 1) =>
